@@ -58,6 +58,8 @@ def _analyses():
     jvp_axis = lambda c, w: a7_axis.hazards(c, w, modes=("jvp",))
     vjp_reduce = lambda c, w: a3_reduce.reductions(c, w, modes=("vjp",))
     jvp_reduce = lambda c, w: a3_reduce.reductions(c, w, modes=("jvp",))
+    vjp_rank = lambda c, w: a3.rank_alignment(c, w, modes=("vjp",))
+    jvp_rank = lambda c, w: a3.rank_alignment(c, w, modes=("jvp",))
     vjp_batch = lambda c, w: a3_reduce.stacked_batches(c, w, modes=("vjp",))
     jvp_batch = lambda c, w: a3_reduce.stacked_batches(c, w, modes=("jvp",))
     vjp_none = lambda c, w: a7_axis.none_axis(c, w, modes=("vjp",))
@@ -73,14 +75,14 @@ def _analyses():
     thread = lambda c, w: kt.global_effects(c, w, thread=True)
     return {
         "C01": (
-            [a3.vjp, a3.helpers, a3.einsum_sublist_target, vjp_reduce, vjp_batch, km.squeeze_axes, a16_perm.permutations_rule, a16_perm.norm_rolls, a17_labels.contraction_adjoints, vjp_axis, vjp_none, vjp_order, a2.catchall, a2.forwarded_defaults, vjp_drop, vjp_ignored, a2.variadic, a2.argnums_rules, a2.positional_selection, a1.arity, ka.option_domains, a5_factor.agree, vjp_alias, a5_linear.closures_linear, ka.arraybox_table, kc.inplace_sites],
+            [a3.vjp, a3.helpers, a3.einsum_sublist_target, vjp_reduce, vjp_batch, vjp_rank, km.squeeze_axes, a16_perm.permutations_rule, a16_perm.norm_rolls, a17_labels.contraction_adjoints, vjp_axis, vjp_none, vjp_order, a2.catchall, a2.forwarded_defaults, vjp_drop, vjp_ignored, a2.variadic, a2.argnums_rules, a2.positional_selection, a1.arity, ka.option_domains, a5_factor.agree, vjp_alias, a5_linear.closures_linear, ka.arraybox_table, kc.inplace_sites],
             "Reverse-mode exactness is numerical; decided here are the configuration-dependent plumbing clauses every exact rule needs: "
-            "broadcast discipline of VJPs (A3.vjp), batch members of stacked-matrix functions kept apart (A3.batch), negative-axis hazards (A7), axis=None of the flattening functions never replaced by an explicit axis (A7.none), layout-relative `order` values never forwarded to the cotangent (A7.order), keyword/positional binding behind catch-alls (A2.catchall), equal names and defaults where (*args, **kwargs) are forwarded to another NumPy function (A2.fwd), no option handed on incompletely (A2.drop) or accepted and never read (A2.ignored), "
+            "broadcast discipline of VJPs (A3.vjp), batch members of stacked-matrix functions kept apart (A3.batch), shapes paired from the right or under an established equal rank (A3.rank), negative-axis hazards (A7), axis=None of the flattening functions never replaced by an explicit axis (A7.none), layout-relative `order` values never forwarded to the cotangent (A7.order), keyword/positional binding behind catch-alls (A2.catchall), equal names and defaults where (*args, **kwargs) are forwarded to another NumPy function (A2.fwd), no option handed on incompletely (A2.drop) or accepted and never read (A2.ignored), "
             "variadic offsets (A2.variadic), whole-argnums rules map element-wise (A2.argnums), slots of variadic primitives addressed by position, never by operand identity (A2.position), arity (A1.arity), closed option domains (A6.enum), VJP/JVP factor agreement of elementwise rules (A5), equal rules for two names of one NumPy function (A5.alias), linearity of every rule closure in its cotangent (A5.lin: a VJP is a linear map; helper primitives it calls must be known to be linear in that operand) "
             "and the operator/method call forms (A14); no rule writes in place to its cotangent, its arguments or the answer (A9.inplace: every other rule that reads the same array would see the changed values). Each is a necessary condition: breaking one makes some call configuration silently wrong.",
         ),
         "C02": (
-            [a1.lin, a3.jvp, a3.helpers, jvp_reduce, jvp_batch, a16_perm.norm_rolls, ka.sibling_guards, jvp_axis, jvp_none, jvp_order, a2.catchall, a2.forwarded_defaults, jvp_drop, jvp_ignored, a2.positional_selection, a1.arity, kc.zero_paths, a5_factor.agree, jvp_alias, a5_linear.closures_linear, kc.inplace_sites],
+            [a1.lin, a3.jvp, a3.helpers, jvp_reduce, jvp_batch, jvp_rank, a16_perm.norm_rolls, ka.sibling_guards, jvp_axis, jvp_none, jvp_order, a2.catchall, a2.forwarded_defaults, jvp_drop, jvp_ignored, a2.positional_selection, a1.arity, kc.zero_paths, a5_factor.agree, jvp_alias, a5_linear.closures_linear, kc.inplace_sites],
             "Forward-mode: 'same'/def_linear only on linear (function, argument) pairs (A1.lin: exactly when the primitive applied to the tangent IS the JVP), "
             "output-shaped tangents of broadcasting JVPs (A3.jvp), batch members of stacked-matrix functions kept apart (A3.batch), guard agreement with the VJP twin (A6.sibling), axis hazards (A7, A7.none), layout-relative `order` values (A7.order) and binding (A2; slots of variadic primitives addressed by position, A2.position) of JVP makers, "
             "(value, tangent) order and zero tangents of the right space (A13.zero/A2.tuple), VJP/JVP factor agreement of elementwise rules (A5), equal rules for two names of one NumPy function (A5.alias), linearity of every rule in its tangent (A5.lin); no JVP rule writes in place to the tangent, the arguments or the answer it is given (A9.inplace: the tangent stored on the parent node is read again by every later consumer).",
@@ -96,8 +98,8 @@ def _analyses():
             "factors IS adjointness for all inputs); linearity in g of every rule closure (two-point domain over linear_in facts); 'same' entries only on linear pairs; the two rules of an argument select on the primal values with the same predicates on the same operands (A5.mask); both rules of a primitive hand its options on to NumPy completely and to functions with the same defaults (A2.drop, A2.fwd: a rule that silently runs with another option value than its twin is not its adjoint).",
         ),
         "C05": (
-            [a3.vjp, a3.helpers, a3.einsum_sublist_target, vjp_reduce, km.squeeze_axes, a4.match, kc.zero_paths, a1.types, a2.layout, a4_dtype.dtype_comparisons, a4_dtype.cotangent_template, vjp_axis],
-            "A gradient lives in its argument's space: shape support under broadcasting (A3.vjp), no axis arithmetic that changes meaning for a negative axis (A7: such a slip cuts the cotangent along the wrong axis), real/complex kind for every kind assignment of the arguments (A4.match, exhaustive 2^n), "
+            [a3.vjp, a3.helpers, a3.einsum_sublist_target, vjp_reduce, vjp_rank, km.squeeze_axes, a4.match, kc.zero_paths, a1.types, a2.layout, a4_dtype.dtype_comparisons, a4_dtype.cotangent_template, vjp_axis],
+            "A gradient lives in its argument's space: shape support under broadcasting (A3.vjp), shapes of two arrays paired entry by entry only under an established equal rank (A3.rank), no axis arithmetic that changes meaning for a negative axis (A7: such a slip cuts the cotangent along the wrong axis), real/complex kind for every kind assignment of the arguments (A4.match, exhaustive 2^n), "
             "kind decisions never made by dtype == <Python scalar type> (A4.dtypecmp), the shape/dtype template of a rebuilt cotangent taken from the differentiated argument (A4.template), zeros of the argument's / output's space on independent paths (A13.zero), one Box and one VSpace per differentiable type (A1.types), container layout (A2.layout).",
         ),
         "C06": (
